@@ -93,7 +93,6 @@ func checkC04(p *Prog, r *Report) {
 						if !ok || fieldOfAddr(fa) == nil || fieldOfAddr(fa).Name() != "data" {
 							continue
 						}
-						idx++
 						nilGuards := map[string]bool{}
 						for _, g := range Guards(b) {
 							if x, trueNil, ok := nilTest(g.Cond); ok && trueNil == g.Val {
@@ -104,6 +103,7 @@ func checkC04(p *Prog, r *Report) {
 							continue // merge path: handled by the engine rules
 						}
 						nStores++
+						idx++ // the replacing stores are numbered among themselves (stable when the merge path moves)
 						// a store inside an extracted helper is reached through the helper's call in UpdateData
 						open := rw == nil || reachableUnder(fn, liftInScope(st), func(c ssa.Value) (bool, bool) {
 							if c == ssa.Value(rw) {
